@@ -169,7 +169,9 @@ prop("C18",
 
 prop("C20",
      level="exploration",
-     tests=[dict(name="TestC20", quick=2500, thorough=25000)],
+     tests=[dict(name="TestC20", quick=2500, thorough=25000),
+            dict(name="FuzzAPIProgram", tier="quick", quick=1),  # seeds + committed corpus, plain run
+            dict(name="FuzzAPIProgram", tier="thorough", fuzz=True, thorough=300, minimize="20x")],
      rule="rapid-generated programs over EVERY exported method of DB and Tx (all 53 Tx methods incl. FindTxIDOnDisk/FindOnDisk/FindLeafOnDisk, DB.Update/View/Begin/Merge/Backup/Close): a population phase fills key/value pairs, a list, two sets and a sorted set in the empty-named bucket and in bucket b (all three index modes, segment sizes 200/512/8192 so commits rotate), then 1-10 steps: writable or read-only transactions (managed and manual, commit or rollback) of 1-5 calls whose arguments are drawn from boundary-heavy domains (nil/empty/separator/255-, 256- and 70000-byte keys and buckets, MinInt64..MaxInt64 indexes, counts, offsets and limits, NaN/+-Inf/+-MaxFloat64/-0 scores, nil and populated range options, invalid regular expressions, extreme TTLs and timestamps), 1-3 further calls on the transaction after its Commit/Rollback, Close (then every kind of step on the closed database), reopen, Merge and Backup. Oracle: no call, Begin, Commit, Rollback, Update/View, Merge, Backup, Close or Open panics (so in particular a call that succeeded never makes the later Commit panic). Non-trivial: a program with an extreme argument aimed at a populated bucket, a call on a finished transaction, or a step after Close; inner_enumerations counts the API calls made.",
      assumptions=["an Open that returns an error (structures written in an index mode that does not support them) ends the program without a verdict (counted as stopped-open-error); Options values outside their documented ranges and nil receivers are not generated",
                   "native fuzzing (FuzzAPIProgram of the design) was not built; the rapid generator is the only driver"],
@@ -177,7 +179,14 @@ prop("C20",
 
 prop("C21",
      level="fault_enumeration", shards=6,
-     tests=[dict(name="TestC21", quick=100, thorough=600, timeout_quick=900)],
+     tests=[dict(name="TestC21", quick=100, thorough=600, timeout_quick=900),
+            dict(name="TestC21API", quick=400, thorough=4000),
+            dict(name="FuzzEntryImage", tier="quick", quick=1), dict(name="FuzzRootIdxImage", tier="quick", quick=1),
+            dict(name="FuzzBucketMetaImage", tier="quick", quick=1), dict(name="FuzzRecordFlips", tier="quick", quick=1),
+            dict(name="FuzzEntryImage", tier="thorough", fuzz=True, thorough=120, minimize="5s"),
+            dict(name="FuzzRootIdxImage", tier="thorough", fuzz=True, thorough=60, minimize="5s"),
+            dict(name="FuzzBucketMetaImage", tier="thorough", fuzz=True, thorough=60, minimize="5s"),
+            dict(name="FuzzRecordFlips", tier="thorough", fuzz=True, thorough=120, minimize="20x")],
      rule="rapid-generated records of the three stored formats - data entries (bucket, key, value of 0-12 bytes over {00,01,a,b,|,7f,80,ff} or 255/256/300 bytes; timestamp, TTL, tx id, file id, offset from edge values up to MaxUint64; all flag/status/structure codes incl. 0xffff), sparse root-index records and bucket metadata - encoded by the library (Entry.Encode, BPTreeRootIdx.Encode, BucketMeta.Encode), stored in a file followed by nothing, zeros, 0xff bytes or a second copy, and read back through DataFile.ReadAt with BOTH RWManagers, ReadBPTreeRootIdxAt and ReadBucketMeta. Oracle: (round-trip) the decoded fields equal the written ones exactly (the all-zero image may read as 'no record'); (corruption) for EVERY single-bit flip of the stored record and EVERY truncation of it (tail zero-filled as a torn write in a pre-sized segment leaves it, and file cut short) the reader returns an error, or 'no record', or a record equal to the written one in every field - anything else is corrupted data served as data. Flips of the top byte of a size field make the reader allocate 16 MiB-2 GiB and are enumerated for 1 case in 60 (drawn; counted under size-field-top-byte-flips-skipped otherwise). Non-trivial: record with a non-empty bucket, key or value; inner_enumerations counts the images read.",
      assumptions=["a reader panic on an absurd size (makeslice) counts as 'not served' here",
                   "the API-level variant and the image fuzzers of the design were not built (time); CRC32 collisions under multi-bit corruption are outside the single-bit/truncation fault model"],
